@@ -11,7 +11,7 @@ use refimpl::wire::{NegReply, INFO_AUTOLOGON};
 use serde::{Deserialize, Serialize};
 
 pub const LEVEL: &str = "exploration";
-pub const RULE: &str = "case = (option combination of {NLA, restricted admin, blank credentials, auto logon, password vs NT hash}, credential strings, server certificate key type) run as a whole connection through Connector::connect over real TLS against the reference CredSSP/NTLM + RDP server. Oracle: TSCredentials (unsealed by the reference server) and Client Info (strictly parsed) carry exactly what the mode prescribes (restricted admin: both empty and RESTRICTED_ADMIN_MODE_REQUIRED in the negotiation request; blank credentials: TSCredentials empty, Client Info populated; hash mode: TSCredentials password empty; INFO_AUTOLOGON iff requested); the password's UTF-8 / UTF-16LE / UTF-16BE encodings occur nowhere in the raw-transport transcript, in the NTLM tokens, or in any TLS-protected message other than TSCredentials and Client Info. option-matrix enumerates all 32 combinations. Non-trivial = password with >= 6 UTF-16 units of which >= 4 distinct; distinct by hash of the case.";
+pub const RULE: &str = "case = (option combination of {NLA, restricted admin, blank credentials, auto logon, password vs NT hash}, credential strings, server certificate key type) run as a whole connection through Connector::connect over real TLS against the reference CredSSP/NTLM + RDP server. Oracle: TSCredentials (unsealed by the reference server) and Client Info (strictly parsed) carry exactly what the mode prescribes (restricted admin: both empty and RESTRICTED_ADMIN_MODE_REQUIRED in the negotiation request; blank credentials: TSCredentials empty, Client Info populated; hash mode: TSCredentials password empty; INFO_AUTOLOGON iff requested); the password's UTF-8 / UTF-16LE / UTF-16BE encodings occur nowhere in the raw-transport transcript, in the NTLM tokens, or in any TLS-protected message other than TSCredentials and Client Info. option-matrix enumerates all 32 combinations twice with generated strings, and again x {empty, short, long, non-ASCII} password x {empty, non-empty} domain x {certificate checking on with the CA-signed identity, off}. Non-trivial = password with >= 6 UTF-16 units of which >= 4 distinct; distinct by hash of the case.";
 
 #[derive(Serialize, Deserialize, Hash, Clone, Debug)]
 pub struct Case {
@@ -243,6 +243,23 @@ fn matrix() -> Vec<Case> {
         for k in 0..2u8 {
             let seed = [bits.wrapping_mul(37).wrapping_add(k), 3, 200, 7, 99, 250, 4, 180, 66, 10, 20, 30, 222, 111, 5, 77, 200, 9, 9, 9, 130, 140, 150, 160, 170, 1, 2, 3, 4, 5, 6, 7, 8, 9, 10, 11, 12];
             v.push(gen_case(&mut Src::new(&seed), Some(bits)));
+        }
+    }
+    // every option combination x {empty, short, long, non-ASCII} password x {empty, non-empty} domain x certificate checking on (CA-signed identity) / off
+    for bits in 0..32u8 {
+        for (pi, pw) in ["", "Zq7#xK", "correct horse battery staple / 0123456789 / correct horse battery staple", "pässwörd-密码-🔑-Kx9"].iter().enumerate() {
+            for domain in ["", "CONTOSO"] {
+                for check in [false, true] {
+                    let seed = [bits ^ 0x5A, pi as u8, 9, 77, 31, 250, 4, 180, 66, 10, 20, 30, 222, 111, 5, 77, 200];
+                    let mut c = gen_case(&mut Src::new(&seed), Some(bits));
+                    c.cfg.password = pw.to_string();
+                    c.cfg.domain = domain.to_string();
+                    c.cfg.user = "Administrator".into();
+                    c.cfg.check_certificate = check;
+                    c.identity = if check { 0 } else { 1 + (pi as u8 % 3) };
+                    v.push(c);
+                }
+            }
         }
     }
     v
